@@ -428,6 +428,17 @@ M("C05", "toml-paths-wrong-section", "breaking",
 M("C05", "pyopenssl-only-for-require-cert", "breaking",
   [("server/server.py", "start_server", "rule.require_cert or rule.allowed_fingerprints is not None\n            for rule in certificate_auth_config.path_rules", "rule.require_cert\n            for rule in certificate_auth_config.path_rules")],
   "A7:server.server:start_server:backend-selection")
+M("C05", "rules-sorted-longest-prefix-first", "breaking",
+  [(CFGF, "ServerConfig.get_certificate_auth_config", "        return CertificateAuthConfig(path_rules=path_rules)\n", "        path_rules.sort(key=lambda r: len(r.prefix), reverse=True)\n        return CertificateAuthConfig(path_rules=path_rules)\n")],
+  "A13:server.config:ServerConfig.get_certificate_auth_config:rule-list-reshaped")
+M("C05", "rules-skip-entries-without-constraints", "breaking",
+  [(CFGF, "ServerConfig.get_certificate_auth_config", "            path_rules.append(\n                CertificateAuthPathRule(\n", "            if fingerprints is not None or path_config.get(\"require_cert\", False):\n              path_rules.append(\n                CertificateAuthPathRule(\n")],
+  "A13:server.config:ServerConfig.get_certificate_auth_config:rule-list-reshaped")
+M("C05", "rules-reversed-view", "breaking",
+  [(CFGF, "ServerConfig.get_certificate_auth_config", "        return CertificateAuthConfig(path_rules=path_rules)\n", "        return CertificateAuthConfig(path_rules=list(reversed(path_rules)))\n")],
+  "A13:server.config:ServerConfig.get_certificate_auth_config:rule-list-reshaped")
+M("C05", "benign-rules-loop-over-local-copy", "benign",
+  [(CFGF, "ServerConfig.get_certificate_auth_config", "        for path_config in self.certificate_auth_paths:\n", "        configured = self.certificate_auth_paths\n        for path_config in configured:\n")])
 M("C05", "benign-regex-slash-collapse", "benign",
   [(MW, "CertificateAuth._extract_path", "        return \"/\" + posixpath.normpath(unquote(path)).lstrip(\"/\")\n", "        canonical = posixpath.normpath(unquote(path))\n        return \"/\" + canonical.lstrip(\"/\")\n")])
 
@@ -783,6 +794,14 @@ M("C16", "loop-test-after-fetch", "breaking",
 M("C16", "no-follow-still-follows", "breaking",
   [(SS, "GeminiClient.get", "            return await self._get_single(url)\n", "            return await self._get_with_redirects(url, max_redirects=1)\n")],
   "G4:client.session:GeminiClient.get:get-dispatch")
+M("C16", "falsy-budget-becomes-default", "breaking",
+  [(SS, "GeminiClient.__init__", "        self.max_redirects = max_redirects\n", "        self.max_redirects = max_redirects or MAX_REDIRECTS\n")],
+  "G14:client.session:GeminiClient.__init__:budget-rewritten")
+M("C16", "budget-clamped-to-one", "breaking",
+  [(SS, "GeminiClient.__init__", "        self.max_redirects = max_redirects\n", "        self.max_redirects = max(1, max_redirects)\n")],
+  "G14:client.session:GeminiClient.__init__:budget-rewritten")
+M("C16", "benign-budget-through-local", "benign",
+  [(SS, "GeminiClient.__init__", "        self.max_redirects = max_redirects\n", "        budget = max_redirects\n        self.max_redirects = budget\n")])
 M("C16", "benign-for-range-idiom-rename", "benign",
   [(SS, RF, "redirect_chain", "visited", -1)])
 
